@@ -299,6 +299,8 @@ class HeapMixin:
             c = tag == self.container_tag(t)
         elif isinstance(t, DictT):
             c = tag == self.container_tag(t)
+        elif t.cls == "object":
+            return z3.And(conj)  # unknown class: no constraint on the dynamic tag
         else:
             subs = [s for s in self.reg.classes if self.reg.is_subclass(s, t.cls)] or [t.cls]
             c = z3.Or([tag == self.class_id(s) for s in subs]) if len(subs) > 1 else tag == self.class_id(subs[0])
